@@ -10,6 +10,8 @@ an `ast` pass for C10 (Generated/FacFlow.lean).  The models and theorems of Prop
 * `start()` records the restart hold and `_evaluate_and_maybe_send` honours it           -> variant flag `restartHold`;
 * the hold is stored only by `start()`, only when a CAM went out in the activation that just ended, never as None
   (a second quick restart without a CAM in between cannot clear it)                      -> variant flag `holdSticky`;
+* every store to `t_gen_cam` is T_GEN_CAM_MAX or a two-sided clamp to [T_GEN_CAM_MIN, T_GEN_CAM_MAX] (`Cam.clampT`; the
+  invariant behind the upper bound of the CAM interval);
 * the VAM callback never compares generationDeltaTime values directly (only `-`, which is wrap-aware);
 * the VAM low-frequency timer is written after the BTP request, not when the container is attached -> `lfAfterSend`.
 """
@@ -163,6 +165,36 @@ def _hold_only_raised(tree, cls):
     return False
 
 
+def _is_call_with(node, fname, const):
+    return (isinstance(node, ast.Call) and isinstance(node.func, ast.Name) and node.func.id == fname
+            and any(isinstance(a, ast.Name) and a.id == const for a in node.args))
+
+
+def _tgen_always_clamped(tree, cls):
+    """every store to `self.t_gen_cam` in the class is either the constant T_GEN_CAM_MAX or a min/max nest that bounds the
+    value by T_GEN_CAM_MIN from below AND by T_GEN_CAM_MAX from above (`max(MIN, min(MAX, x))` or `min(MAX, max(MIN, x))`)"""
+    found = False
+    for node in ast.walk(tree):
+        if isinstance(node, ast.ClassDef) and node.name == cls:
+            for n in ast.walk(node):
+                if isinstance(n, (ast.AugAssign, ast.AnnAssign)) and _is_self_attr(n.target, "t_gen_cam"):
+                    if not (isinstance(n, ast.AnnAssign) and isinstance(n.value, ast.Name) and n.value.id == "T_GEN_CAM_MAX"):
+                        return False
+                    found = True
+                if isinstance(n, ast.Assign) and any(_is_self_attr(x, "t_gen_cam") for t in n.targets for x in ast.walk(t)):
+                    found = True
+                    v = n.value
+                    if isinstance(v, ast.Name) and v.id == "T_GEN_CAM_MAX":
+                        continue
+                    outer_lo, outer_hi = _is_call_with(v, "max", "T_GEN_CAM_MIN"), _is_call_with(v, "min", "T_GEN_CAM_MAX")
+                    if outer_lo and any(_is_call_with(a, "min", "T_GEN_CAM_MAX") for a in v.args):
+                        continue
+                    if outer_hi and any(_is_call_with(a, "max", "T_GEN_CAM_MIN") for a in v.args):
+                        continue
+                    return False
+    return found
+
+
 def facts():
     cam = ast.parse(src(CAM_TM))
     vam = ast.parse(src(VAM_TM))
@@ -214,6 +246,7 @@ def facts():
                     and any(isinstance(o, (ast.Lt, ast.LtE, ast.Gt, ast.GtE)) for o in n.ops) for n in ast.walk(ev))
     f["CAM_RESTART_HOLD"] = hold_written and hold_read
     f["CAM_RESTART_HOLD_STICKY"] = hold_written and _hold_only_raised(cam, cls)
+    f["CAM_TGEN_ALWAYS_CLAMPED"] = _tgen_always_clamped(cam, cls)
 
     vcls = "VAMTransmissionManagement"
     cb = _func(vam, vcls, "location_service_callback")
